@@ -2084,6 +2084,11 @@ def run(ctx):
         ood.append(("check(malformed length)", f"rs.check {hex_str(w)} {hex_str(m)}", out_chk(call(R.check, w, m))))
         ctx.count(f"out-of-domain:data{ld}/mask{lm}/word{lw}")
 
+    # ------------------------------------------------------------------ generic history / object-identity probes
+    import histories
+
+    histories.run(ctx, ENTRY_POINTS)
+
     # ------------------------------------------------------------------ after everything above: nothing has worn off
     # (class-level tables / scratch state edited by some call): all products once more, the captured words, the first
     # messages of the run once more
@@ -2122,6 +2127,53 @@ def run(ctx):
 
 
 # ------------------------------------------------------------------------------------------------
+# history / object-identity probes (harness/histories.py): the entry points of ReedSolomon1294, described once
+def ENTRY_POINTS():
+    import histories
+    from okdmr.dmrlib.etsi.layer2.elements.crc_masks import CrcMasks
+
+    R = rs()
+    masks = [m for _, m in std_masks()] + [bytes(3), b"\xff\xff\xff"]
+    kinds = (bytes, bytes, bytearray)
+
+    def message(rng):
+        r = rng.random()
+        if r < 0.1:
+            return bytes(9)
+        if r < 0.2:
+            return bytes.fromhex(rng.choice(CORPUS)[0])[:9]
+        return bytes(rng.randrange(256) for _ in range(9))
+
+    def mask(rng):
+        return rng.choice(masks) if rng.random() < 0.8 else bytes(rng.randrange(256) for _ in range(3))
+
+    def gen_args(rng):
+        d, m = message(rng), mask(rng)
+        return (rng.choice(kinds)(d), rng.choice(kinds)(m))
+
+    def chk_args(rng):
+        d, m = message(rng), mask(rng)
+        w = d + xor_b(ref_parity(d), m)
+        if rng.random() < 0.4:
+            e = rand_error(rng, weight=rng.choice([1, 2, 3]))
+            w = xor_b(w, e)
+        return (rng.choice(kinds)(w), rng.choice(kinds)(m))
+
+    def mul_args(rng):
+        return (rng.choice([0, 1, 2, 255, rng.randrange(256)]), rng.randrange(256))
+
+    # the masks as a caller may hold them: the enum member, its value, hex text (type confusions of the standard's constants)
+    mask_bad = [(f"CrcMasks.{m.name}", m) for m in CrcMasks] + [(f"CrcMasks.{m.name}.value", m.value) for m in CrcMasks][:6] + [
+        ("mask as hex text", "969696"), ("mask of 2 octets", b"\x96\x96"), ("mask as list with 256", [150, 256, 150])]
+    state = histories.class_state(R)
+    return [
+        histories.EP("generate", R.generate, gen_args, canon=lambda r: out_gen(r) if isinstance(r, (bytes, bytearray)) else histories.canon(r),
+                     kind="encode", bad_args={1: mask_bad}, observe=state, draws=2),
+        histories.EP("check", R.check, chk_args, kind="check", bad_args={1: mask_bad}, observe=state, draws=2),
+        histories.EP("log_multiply", R.log_multiply, mul_args, kind="encode", observe=state),
+    ]
+
+
 def _model(lines):
     exe = os.path.join(BIN, "drv_c11")
     if not os.path.exists(exe):
@@ -2185,6 +2237,10 @@ def replay(obj):
             r = None if (isinstance(res, str) or not res) else res[0][1:]
         else:
             r = with_ambient(mode, lambda: eval_item(R, it))
+    elif isinstance(kind, str) and kind.startswith("history:"):
+        import histories
+
+        return histories.replay(inp, ENTRY_POINTS)
     elif kind == "history":
         res = run_script(R, inp["steps"])
         for i, st in enumerate(inp["steps"]):
